@@ -239,3 +239,29 @@ func P384KeyBytes() *rapid.Generator[[]byte] {
 		return new(big.Int).SetBytes(b).Bytes()
 	})
 }
+
+// Uniform draws an index in [0, n) with a flat distribution. rapid's integer
+// generators are deliberately biased towards small values (60% of
+// IntRange(0,999) lands below 100), which starves high offsets and late table
+// entries; two drawn words are mixed (splitmix64) and reduced instead. The
+// result is still a pure function of drawn values, so replay and shrinking work.
+func Uniform(t *rapid.T, n int, label string) int {
+	if n <= 1 {
+		return 0
+	}
+	a := rapid.Uint64().Draw(t, label+"/u1")
+	b := rapid.Uint64().Draw(t, label+"/u2")
+	x := a ^ (b<<32 | b>>32) ^ 0x9E3779B97F4A7C15
+	x ^= x >> 30
+	x *= 0xBF58476D1CE4E5B9
+	x ^= x >> 27
+	x *= 0x94D049BB133111EB
+	x ^= x >> 31
+	return int(x % uint64(n))
+}
+
+// UniformRange draws uniformly from [lo, hi].
+func UniformRange(t *rapid.T, lo, hi int, label string) int { return lo + Uniform(t, hi-lo+1, label) }
+
+// Pick draws one element uniformly.
+func Pick[T any](t *rapid.T, xs []T, label string) T { return xs[Uniform(t, len(xs), label)] }
